@@ -30,6 +30,10 @@ CHECKS = {
             "Decides the schema-level necessary conditions of the JSON round trip for every store: each of the 8 writer/reader pairs agrees on field names and required fields, every selector arm writes its own variant name as @type and exactly the fields SelectorJson expects (9 arms), SelectorJson converts to the same-named builder variant, every id/temp-id fallback reads both identifiers from the same item (11 sites), the two streaming visitors still map temporary ids back and re-create gaps, and every mutation callback of a stand-off dataset marks it changed so that save() rewrites the file. Value fidelity and byte-identical re-serialisation are not decided.",
             "trusts syn and serde's derive semantics (rename/alias/default); values are not compared",
             "DESIGN.md section 4 C05, A8, A9", "syn"),
+    "C01": ("other", "field-effect ownership analysis (MIR) against a reviewed writer table; insert/un-insert pairing and accessor-family agreement of the index callbacks (syn); positional-vector discipline, guard/use contradiction, dominance rules (MIR); sibling agreement of the range-compression arms",
+            "Because every history funnels through StoreFor::insert/remove and three callbacks, agreement after every history reduces to facts about a dozen functions, decided here for all paths: only sanctioned functions may write the 40 index / id-map / store / position fields (123 reviewed writer lines; a new writer is a violation); every index inserted() writes is un-written by preremove() from the matching accessor; each index write is guarded by its own configuration flag and ends in the new handle; handle-indexed vectors are never shifted, truncated or reordered; no indexed access sits in the branch where the index is out of range; a text selection is inserted only on the not-known edge of a complete look-up; range compression of sub-selectors compares resources and consecutive handles. Exactness of what the API iterators return is not decided.",
+            "trusts rustc MIR, syn, rules/owners.json (reviewed), the ACCESSOR table in lib/props/c01.py; C01.SORTED of the design is not built",
+            "DESIGN.md section 4 C01, A3, A4, A9", "mir+syn"),
 }
 
 NA = {
